@@ -51,7 +51,7 @@ def main():
                 bad += 1
                 continue
             for prop in m["properties"]:
-                r = subprocess.run([os.path.join(verif, "bin/nfpmcheck"), "-verif", tmp, "-repo", wt, "-property", prop, "-tier", m.get("tier", "quick")],
+                r = subprocess.run([os.path.join(verif, "bin/nfpmcheck"), "-verif", verif, "-out", tmp, "-repo", wt, "-property", prop, "-tier", m.get("tier", "quick")],
                                    capture_output=True, text=True, env=env)
                 out = r.stdout
                 if m["kind"] == "fire":
